@@ -470,7 +470,7 @@ Section Reader.
 
     (* read_fcomponents_until *)
     (* `start = self.pos` is taken at the top of every iteration of the loop, i.e. it is the length of the
-       input this call starts with; the mode's own start argument only records it *)
+       input this call starts with; the mode's start argument only records the length at the first iteration *)
     Definition parts_body (cl : closing) (rawp tmode : bool) (start0 : nat) (acc : list tree) (s : text) : res :=
       let start := length s in
       match scan true rawp cl false [] s with
@@ -483,7 +483,7 @@ Section Reader.
           match finish_chunk rawp false body with
           | inl v =>
               match rec (MField rawp tmode) rest with
-              | RParts fs rest' => rec (MParts cl' rawp tmode (length rest') (rev fs ++ add_str v start (length rest) acc)) rest'
+              | RParts fs rest' => rec (MParts cl' rawp tmode start0 (rev fs ++ add_str v start (length rest) acc)) rest'
               | x => x
               end
           | inr e => RPy e
